@@ -1,6 +1,7 @@
 import Driver.Common
 import Driver.C03
 import Rpki.Model.Cert
+import Rpki.Model.CertDer
 namespace Driver.C01
 open Driver Rpki.Chain Rpki.Cert
 
@@ -175,10 +176,22 @@ def handle (toks : List String) (impl : String) : Verdict :=
       match raws.reverse with
       | last :: rest => (({ last with facts := { last.facts with validity := { last.facts.validity with na := last.facts.validity.na - 1 } } }) :: rest).reverse
       | [] => raws
+    -- the model's side no longer takes the generator's facts: every certificate is decoded from its octets by
+    -- `CertDer.decodeCert` (fields, key identifier = SHA-1 of the key bits, name inspection, resources); only
+    -- the verdict "the signature verifies under the issuer's key" stays an input
+    let ders := (rest.dropWhile (· ≠ "|")).drop 1
     match parseInt now, parsed with
     | some now, some raws =>
       if raws.isEmpty then badOp "no facts" else
-      let m := modelLine now kind raws
+      if ders.length ≠ raws.length then badOp "facts and certificates differ in number" else
+      let fromBytes : List Raw := (raws.zip ders).zipIdx.map fun ((r, h), i) =>
+        match (hexB h).bind Rpki.CertDer.decodeCert with
+        | some d =>
+          let f := Rpki.CertDer.toFacts d (kind = "rt" && i + 1 = n) true r.facts.sigOk
+          let f := if half ∧ i + 1 = n then { f with validity := { f.validity with na := f.validity.na - 1 } } else f
+          { r with facts := f, dec := true }
+        | none => { r with dec := false }
+      let m := modelLine now kind fromBytes
       let o := match oracle now kind raws impl with
         | some w => some w
         | none =>
